@@ -7,16 +7,11 @@ use crate::cur;
 use crate::report::{text_json, Ctx, Reporter};
 use crate::universe::from_records;
 use pgvcore::ast::{Gen, GenCfg, Term};
+use pgvcore::desc::arbitrary_sig;
 use pgvcore::mutate::{mutate_tokens, random_bytes, token_soup};
 use pgvcore::rng::Rng;
 use pgvcore::traces::arbitrary_line;
 use pgvcore::util::{AlignedBuf, Fp, Json};
-
-fn arbitrary_sig(rng: &mut Rng) -> String {
-    const A: &[&str] = &["(", ")", "L", ";", "[", "I", "V", "J", "/", "é", "日", "a", "Z", ":", ".", " ", "\u{1F600}", "La/b;", "[[", "Lé;", ")V", "(L"];
-    let n = rng.below(10);
-    (0..n).map(|_| *rng.pick(A)).collect()
-}
 
 fn gen_mapping(rng: &mut Rng, case: u64, slow: bool) -> (&'static str, Vec<u8>) {
     match case % 6 {
